@@ -256,6 +256,8 @@ def _create_regex(pat: str) -> re.Pattern[str]:
             regex += ".*"
             continue
         regex += re.escape(char)
+    if backslash_last:
+        regex += re.escape("\\")
 
     return re.compile(regex)
 
